@@ -506,6 +506,18 @@ def generate(seed, prop, tier, index=0):
             s = rng.choice(fsites)
             v = rng.choice([1, 1, 2, rng.randint(1, 15), "*"])
             add(s, v, ["raise"])
+        if len(cfg["modes"]) >= 2 and rng.random() < 0.15:
+            # aimed: the selected autonomous mode's on_disable raises every time, the dashboard picks another mode
+            # between two autonomous periods: the new mode must get its own complete life cycle
+            m0, m1 = rng.sample(cfg["modes"], 2)
+            add(f"mode.{m0['name']}.on_disable", "*", ["raise"])
+            w = rng.randint(2, max(3, cap // 2))
+            add("wait", 1, ["autosel", m0["name"]], ["ds", 1, "auto", 1])
+            add("wait", w, ["ds", rng.choice([0, 1]), "teleop", 1])
+            add("wait", w + 1, [rng.choice(["autosel", "select"]), m1["name"]] if True else [])
+            if ops[-1]["acts"][0][0] == "select":
+                add("wait", w + 1, ["autosel", "None"])
+            add("wait", w + rng.choice([2, 3]), ["ds", 1, "auto", 1])
         if rng.random() < 0.15:
             # aimed: a callback that raises every time, an overrun (so that the loop catches up with iterations less than a
             # period apart) and the FMS cable flickering at consecutive wake-ups - the decision swallow/crash must follow the
